@@ -133,8 +133,10 @@ def handleGen (j : Json) : Json :=
                | none => some (mkExpr retJ) }
   let sends := (arr! (fld g "sends")).map fun s => if isNull s then none else some (valOf s)
   let legacy := bool! (fld j "legacy")
+  let eager := bool! (fld j "eager")
   let model := if legacy && isAsync then legacyAsyncTrace W0 gt (scriptStep sc) 0 sends
-               else wrapTrace W0 gt (scriptStep sc) 0 none sends
+               else if eager then wrapTrace W0 gt (scriptStep sc) 0 none sends
+               else lazyTrace W0 gt (scriptStep sc) pyIsNone 0 none sends
   let spec := Spec.genTrace W0 gt (scriptStep sc) 0 none sends
   Json.mkObj [("trace", Json.arr (model.map evJson).toArray), ("spec_trace", Json.arr (spec.map evJson).toArray)]
 
